@@ -25,7 +25,7 @@
    (12 2 text)             -> res-rule           parse_rule text
    (12 3 declared msg)     -> (model spec)       each () = not called | ((arg ...)) = called with these arguments
    (12 4 rule msg)         -> (model legacy spec registrable)   booleans                                   *)
-From Tx Require Import Lib.Base Lib.Sexp Model.Router Spec.MatchSpec Spec.DaemonSpec Model.ClientMatch.
+From Tx Require Import Lib.Base Lib.Sexp Model.Router Spec.MatchSpec Spec.DaemonSpec Model.ClientMatch Model.AsyncMatch.
 Local Open Scope Z_scope.
 
 Definition dec_ostr : sexp -> option (option str) := as_opt as_str.
@@ -190,12 +190,43 @@ Fixpoint cgo (done : list event) (s : client * daemon) (h : list event) : list s
       SList [enc_cobs o; sp] :: cgo (done ++ [e]) s' h'
   end.
 
+(* ---- client / proxy histories with delayed answers ----------------------------------
+   (12 6 declared prule (aevent ...))   aevent = (0 rule cbk) conn.addMatch | (1 id) conn.delMatch | (2 msg) signal
+                                               | (3 cbk) ro.notifyOnSignal | (4 id) ro.cancelSignalNotification
+                                               | (5) the oldest pending call is answered
+   -> one obs per event: (0 (wire ...) res-()) | (1 0 res-id) | (1 1 res-()) | (1 2) | (2 forwarded ((id tag) ...)) *)
+Definition dec_aevent (s : sexp) : option aevent :=
+  match s with
+  | SList [SNum 0; r; k] =>
+      match dec_rule r, dec_cbk k with Some r', Some k' => Some (XAdd r' k') | _, _ => None end
+  | SList [SNum 1; SNum i] => Some (XDel (Z.to_nat i))
+  | SList [SNum 2; m] => option_map XSignal (dec_msg m)
+  | SList [SNum 3; k] => option_map XNotify (dec_cbk k)
+  | SList [SNum 4; SNum i] => Some (XCancel (Z.to_nat i))
+  | SList [SNum 5] => Some XAnswer
+  | _ => None
+  end.
+
+Definition enc_aobs (o : aobs) : sexp :=
+  match o with
+  | OWrote w e => SList [SNum 0; SList (map enc_wire w); sres enc_unit e]
+  | OAnsAdd r => SList [SNum 1; SNum 0; sres snat r]
+  | OAnsDel r => SList [SNum 1; SNum 1; sres enc_unit r]
+  | OAnsNone => SList [SNum 1; SNum 2]
+  | OASignal f l => SList [SNum 2; sbool f; enc_called l]
+  end.
+
 Definition op (args : list sexp) : sexp :=
   match args with
   | [SNum 0; SList es] =>
       match map_opt dec_event es with
       | Some h => SList (go [] true init init h)
       | None => bad
+      end
+  | [SNum 6; d; pr; SList es] =>
+      match dec_ostr d, dec_rule pr, map_opt dec_aevent es with
+      | Some d', Some pr', Some h => SList (map enc_aobs (atrace pr' d' h))
+      | _, _, _ => bad
       end
   | [SNum 5; SList es] =>
       match map_opt dec_event es with
